@@ -76,17 +76,38 @@ where
             {
                 use serde::Serialize;
                 let limit = t.len() / 2;
-                let aborted = p.serialize(LimitedStringSerializer { limit });
+                let aborted = p.serialize(LimitedStringSerializer { limit, human: true });
                 if limit < t.len() && aborted.is_ok() {
                     return Err(format!("[{}] a serializer limited to {limit} bytes accepted {t:?}", I::NAME));
                 }
-                match p.serialize(LimitedStringSerializer { limit: usize::MAX }) {
+                match p.serialize(LimitedStringSerializer { limit: usize::MAX, human: true }) {
                     Ok(s2) if s2 == t => {},
                     other => return Err(format!("[{}] after an aborted serialisation, {t:?} serialises as {other:?}", I::NAME)),
                 }
                 let again = serde_json::to_string(p).map_err(|e| e.to_string())?;
                 if again != ser {
                     return Err(format!("[{}] after an aborted serialisation, {t:?} serialises as {again}", I::NAME));
+                }
+            }
+            // a format that is not self-describing (only the hinted `deserialize_str` works) and one that is not
+            // human readable still carry a PURL as its string
+            for human in [true, false] {
+                match GenericPurl::<I::T>::deserialize(StrOnlyDeserializer { text: &t, human }) {
+                    Ok(q) if q == *p => {},
+                    other => {
+                        return Err(format!(
+                            "[{}] a deserializer that only answers deserialize_str (human_readable = {human}) for {t:?} gives {:?}",
+                            I::NAME,
+                            other.map(|q| observe(&q)).map_err(|e| e.to_string())
+                        ))
+                    },
+                }
+            }
+            {
+                use serde::Serialize;
+                match p.serialize(LimitedStringSerializer { limit: usize::MAX, human: false }) {
+                    Ok(s2) if s2 == t => {},
+                    other => return Err(format!("[{}] a serializer that is not human readable gets {other:?} for {t:?}", I::NAME)),
                 }
             }
             // values that are not strings are refused, even when they contain the string
@@ -107,6 +128,39 @@ where
 /// A serializer that accepts a string up to `limit` bytes and refuses everything else.
 struct LimitedStringSerializer {
     limit: usize,
+    human: bool,
+}
+
+/// A deserializer of a format that is not self-describing: it can only answer the hint it is given, and it
+/// holds a string.
+struct StrOnlyDeserializer<'a> {
+    text: &'a str,
+    human: bool,
+}
+
+impl<'de, 'a> serde::Deserializer<'de> for StrOnlyDeserializer<'a> {
+    type Error = ValueError;
+
+    fn deserialize_any<V: serde::de::Visitor<'de>>(self, _: V) -> Result<V::Value, ValueError> {
+        Err(serde::de::Error::custom("this format is not self-describing"))
+    }
+
+    fn deserialize_str<V: serde::de::Visitor<'de>>(self, v: V) -> Result<V::Value, ValueError> {
+        v.visit_str(self.text)
+    }
+
+    fn deserialize_string<V: serde::de::Visitor<'de>>(self, v: V) -> Result<V::Value, ValueError> {
+        v.visit_string(self.text.to_string())
+    }
+
+    fn is_human_readable(&self) -> bool {
+        self.human
+    }
+
+    serde::forward_to_deserialize_any! {
+        bool i8 i16 i32 i64 i128 u8 u16 u32 u64 u128 f32 f64 char bytes byte_buf option unit unit_struct newtype_struct seq tuple
+        tuple_struct map struct enum identifier ignored_any
+    }
 }
 
 #[derive(Debug)]
@@ -151,6 +205,10 @@ impl serde::Serializer for LimitedStringSerializer {
         serialize_bytes(&[u8]), serialize_none(), serialize_unit(), serialize_unit_struct(&'static str),
         serialize_unit_variant(&'static str, u32, &'static str),
     );
+
+    fn is_human_readable(&self) -> bool {
+        self.human
+    }
 
     fn serialize_str(self, v: &str) -> Result<String, SerErr> {
         if v.len() > self.limit {
